@@ -29,6 +29,9 @@ QUERIES = [
     "1", "(1, 2, 3)", "!()", "1 2", "\"abc\"", "[1, 2, \"x\"]", "(", "foo", "let A := 1; let A := 2;",
     "(1, 2) if (== 2) then (drop drop drop drop drop drop) else ()", "1 \"a\" add", "(1, 0, 2) 6 swap div",
     "(|A| A)", "(1, 2) \"r%s\"", "", "drop drop drop drop drop",
+    # scripts in which a line break means something: it separates two tokens, ends a comment, is a byte of a string
+    "1\n2", "(1, 2) # first pair\n(3, 4)", "1 // one\n?(0 == 1)", "\"a\nb\" length", "1\n\n\n2 add\n", "(1,\n2)\n#last line is a comment",
+    "1 /* a\nb */ 2", "\"x\"\\\n\"y\"",
 ]
 FILE_QUERIES = ["(|D| D entry (pos < 3) offset)", "(|D| D name)", "(|D| [D unit offset])", "(|D| D entry (pos == 1) label \"%s\")",
                 "(|D| D entry (pos < 2) offset, D symbol (pos < 2) name)", "(|D| D entry !())", "(|D| 7)"]
@@ -349,7 +352,7 @@ def work_laws(task):
         if r1 != r2:
             ev.violations.append({"property": PID, "argv": flags + a1 + ["-e", q], "reason": "-a %r differs from --a '\"%s\"': %r vs %r" % (x, x, r1, r2),
                                   "signature": "C19:law-a:%s:%s" % (q, x)})
-        qq = rnd.choice(QUERIES[:6] + FILE_QUERIES[:3])
+        qq = rnd.choice(QUERIES[:6] + FILE_QUERIES[:3] + QUERIES[16:])
         files = [FILES[0]] if "D" in qq else []
         qfile = os.path.join(RUN, "c19l-%d-%d.zw" % (os.getpid(), i))
         open(qfile, "w").write(qq)
